@@ -163,7 +163,7 @@ theorem specOpsToks_wf (cc : Cfg) (P : Palettes) (ops : List Op) :
       simp only [specOpsToks]
       cases hi : styles[i]? with
       | none => intro o ho; cases ho
-      | some s => exact ih _ (happ _ (by intro l hl; exact hc.1 l hl)) hc.2
+      | some s => exact ih _ (happ _ (by intro l hl; exact hc.1 l (Style.updateLink_link_some hl))) hc.2
     | render cfg segs =>
       intro o ho
       simp only [specOpsToks, List.mem_cons] at ho
